@@ -159,14 +159,15 @@ pub fn cases() -> Vec<Case> {
 
 pub fn run(tier: Tier) -> Report {
     let mut rep = Report::new("C09");
-    let cs = cases();
+    // matrix tier (once per build configuration in C20): 4:4:4, limited range, 8 bit u8 and 10 bit u16
+    let cs: Vec<Case> = if light() { cases().into_iter().filter(|c| c.ss == (0, 0) && !c.full && ((c.n == 8 && !c.wide) || (c.n == 10 && c.wide))).collect() } else { cases() };
     let cols = colours(tier.pick(10, 24));
     let fine = colours(tier.pick(16, 48));
     let acc = par_chunks(cs.len() as u64, 8, |acc, lo, hi| {
         for i in lo..hi {
             let c = &cs[i as usize];
             let st428 = c.p == CP::ST428;
-            let cl = if c.ss == (0, 0) && c.n <= 10 { &fine } else { &cols };
+            let cl = if c.ss == (0, 0) && c.n <= 10 && !light() { &fine } else { &cols };
             if c.wide {
                 run_case::<u16>(acc, i, c, cl, st428)
             } else {
@@ -180,7 +181,7 @@ pub fn run(tier: Tier) -> Report {
     rep.acc.merge(acc);
     // one large 4:4:4 image (65,539 pixels: lattice colours cycled, plus a dense dark ramp) per
     // transfer characteristic and primaries set, 8 and 10 bit
-    {
+    if !light() {
         let mut bigcols: Vec<[f32; 3]> = (0..BIG_SIZES[0]).map(|k| fine[(k * 7919) % fine.len()]).collect();
         for k in 0..4096usize {
             let v = 0.06 * k as f32 / 4096.0;
@@ -213,10 +214,16 @@ pub fn run(tier: Tier) -> Report {
     );
     rep.rule = "Yuv::<T>::try_from((Xyb::try_from(&yuv)?, yuv.config())): width, height, config equal; every sample within max(1, 0.015*(2^n-1)) codes of the input".into();
     rep.assumptions = vec!["the continuous in-gamut set is bounded by the stated colour lattice; pointwise behaviour per C11".into()];
-    rep.guard("19600 physical 4:4:4 configs", n444 == 19600);
+    if light() {
+        rep.guard("1960 physical 4:4:4 configs (matrix tier)", n444 == 1960);
+    } else {
+        rep.guard("19600 physical 4:4:4 configs", n444 == 19600);
+    }
     rep.guard_bucket("4:4:4 config within budget");
-    rep.guard_bucket("subsampled config within budget");
-    rep.guard_bucket("large image (65,539 pixels) within budget");
+    if !light() {
+        rep.guard_bucket("subsampled config within budget");
+        rep.guard_bucket("large image (65,539 pixels) within budget");
+    }
     rep
 }
 
